@@ -655,6 +655,7 @@ class Ranks:
         self.reports = []
         self.decided = 0
         self._seen = set()
+        self._keep = []                 # synthesised nodes stay alive: `_seen` is keyed by id(), a freed node's address may be handed to the next one
         self.prop_rank = prop_rank      # name of a property of the class -> rank of what it returns (1 for `return self._x.tensor`)
         # names the function itself uses as (batches of) matrices: argument of cholesky / inverse / det / solve / diagonal(dim1=-2, dim2=-1) / triu / tril
         self.matrix_names = set()
@@ -818,6 +819,7 @@ class Ranks:
             b = ast.BinOp(left=ast.Name(id=st.target.id, ctx=ast.Load()), op=st.op, right=st.value)
             ast.copy_location(b, st)
             ast.copy_location(b.left, st)
+            self._keep.append(b)
             v = self.rank(b, env)
             env = dict(env)
             env[st.target.id] = v if v != 'scalar' else None
